@@ -681,7 +681,7 @@ class Translator:
             if name == 'reset' and not args: return f'({oval()} = NULL)'
             if name == 'get': return oval()
         if cls == 'atomic':
-            if name == 'load': return f'ATOMIC_LOAD({optr()})'
+            if name == 'load': return f'(INTERFERE_POINT({cx.self_expr}), ATOMIC_LOAD({optr()}))'
             if name == 'store': return f'ATOMIC_STORE({optr()}, {self.E(args[0], cx)})'
             if name == 'exchange': return f'ATOMIC_EXCHANGE({optr()}, {self.E(args[0], cx)})'
             if name.startswith('operator ') and not args: return f'ATOMIC_LOAD({optr()})'
@@ -691,7 +691,7 @@ class Translator:
         if cls in ('lambda', 'function') and name == 'operator()':
             return self.call_functor(tcls, optr(), args, n, cx)
         if cls == 'list':
-            if name == 'empty': return f'WLIST_EMPTY({optr()})'
+            if name == 'empty': return f'(INTERFERE_POINT({cx.self_expr}), WLIST_EMPTY({optr()}))'
             if name == 'begin': return f'WLIST_BEGIN({optr()})'
             if name == 'end': return f'WLIST_END({optr()})'
             if name == 'front': return f'(*WLIST_FRONT({optr()}))'
@@ -1503,7 +1503,7 @@ class Translator:
                 # default-initialisation
                 if t.cls == 'sp': out.append(f'self->{nm} = NULL;')
                 elif t.cls == 'wp': out.append(f'self->{nm} = ({t.c}){{NULL}};')
-                elif t.cls == 'mutex': out.append(f'MUTEX_INIT(&self->{nm});')
+                elif t.cls == 'mutex': out.append(f'MUTEX_MEMBER_INIT(&self->{nm}, self, {nm});')
                 elif t.cls in ('builtin', 'atomic', 'ptr', 'enum', 'fnptr', 'rawbuf'):
                     out.append(f'/* {nm}: no initialiser -> indeterminate (left nondeterministic) */')
                 elif t.cls == 'list': out.append(f'WLIST_MEMBER_INIT(&self->{nm}, self, {nm});')
@@ -1514,7 +1514,7 @@ class Translator:
             if t.ref:
                 out.append(f'self->{nm} = {self.addr_of(e, cx)};'); continue
             if t.cls == 'mutex':
-                out.append(f'MUTEX_INIT(&self->{nm});'); continue
+                out.append(f'MUTEX_MEMBER_INIT(&self->{nm}, self, {nm});'); continue
             if t.cls == 'list':
                 if s.get('kind') == 'CXXConstructExpr' and not s.get('inner'): out.append(f'WLIST_MEMBER_INIT(&self->{nm}, self, {nm});'); continue
                 raise Unsupported(f'list member {nm} is not default-constructed in {cx.cname}')
